@@ -159,6 +159,53 @@ def fast(ids, base_name='seeded'):
     return out
 
 
+def readme():
+    """Regenerate seeded/README.md from the meta files and a fresh evaluation (scratch copies of /repo's working tree)."""
+    base = os.path.join(HERE, 'seeded')
+    import io, contextlib
+    buf = io.StringIO()
+    with contextlib.redirect_stdout(buf):
+        res = fast([])
+    json.dump(res, open(os.path.join(base, 'RESULTS.json'), 'w'), indent=1)
+    rows = []
+    rounds = {'A': 1, 'B': 1, 'C': 2, 'D': 2, 'E': 3, 'F': 3, 'G': 4, 'H': 4, 'I': 5, 'J': 5}
+    for name in sorted(res):
+        m = json.load(open(os.path.join(base, name, 'meta.json')))
+        needs = m.get('needs_to_manifest') or ''
+        if not needs:
+            notes = m.get('notes', '')
+            letter = {'E': 'A', 'F': 'B', 'G': 'A', 'H': 'B', 'I': 'A', 'J': 'B'}.get(name[-1], name[-1])
+            sec = re.split(r'(?im)^\s*(?:#+|\*\*)\s*mutation\s+', notes)
+            mine = next((x for x in sec if x.strip().upper().startswith(letter)), notes)
+            cand = [l.strip(' -*') for l in mine.splitlines() if re.search(r'(?i)need|trigger|manifest', l)]
+            needs = (cand[0] if cand else '')[:220]
+        fr = m.get('first_run')
+        if isinstance(fr, dict):
+            fr = f"r{fr.get('round')}: {fr.get('verdict', '')}" + (f" (others: {fr.get('all')})" if 'MISSED' in fr.get('verdict', '') and fr.get('all') not in ('{}', None) else '')
+        fired = res[name]
+        now = '; '.join(f"{p}: {', '.join(r)}" for p, r in sorted(fired.items())) or 'NOT REPORTED'
+        tgt = name.split('-')[0]
+        mark = '' if (tgt in fired and not str(fired[tgt]).startswith("['ANALYSIS")) else ' **(target check silent)**'
+        rows.append(f"| {name} | {(m.get('change') or '').replace('|', '¦')[:230]} | {needs.replace('|', '¦')} | {str(fr or '').replace('|', '¦')[:200]} | {now.replace('|', '¦')}{mark} |")
+    n = len(rows)
+    caught = sum(1 for name in res if name.split('-')[0] in res[name] and not str(res[name][name.split('-')[0]]).startswith("['ANALYSIS"))
+    head = f"""# Seeded changes: what they are, what they need, which checks catch them
+
+{n} changes written by independent sub-agents (rounds of 20 properties × 2), each given only the property text and a scratch worktree of /repo.
+Every one was confirmed by me in its scratch worktree before being kept: demo passes on the clean tree, fails with the patch, full suite unchanged (219 passed / 44 failed).
+Suffix = round: A,B round 1 · C,D round 2 · E,F round 3 · G,H round 4 · I,J round 5.
+`first run` is the verdict of the checks as they were when the change arrived (before any strengthening for that round).
+`caught now by` lists, per property check, the rules that report the change on the current machinery (`tools_seeded.py readme`: each patch applied to a scratch copy of
+/repo's working tree, all 20 checks run on it through PJX_REPO; the thorough tier of every check re-evaluates its own seeds in memory on every run and records them in the evidence).
+Currently {caught} of {n} are reported by the check of the property they target.
+
+| id | change | needs | first run | caught now by |
+|---|---|---|---|---|
+"""
+    open(os.path.join(base, 'README.md'), 'w').write(head + '\n'.join(rows) + '\n')
+    print(f'{caught}/{n} caught by target')
+
+
 if __name__ == '__main__':
     cmd = sys.argv[1]
     if cmd == 'validate':
@@ -171,3 +218,5 @@ if __name__ == '__main__':
         fast(sys.argv[2:])
     elif cmd == 'neutral':
         fast(sys.argv[2:], base_name='seeded_neutral')
+    elif cmd == 'readme':
+        readme()
